@@ -333,6 +333,15 @@ func hugeSnappy(t int, y []byte) bool {
 	return n > 0 && v > 1<<26 && v <= 0xffffffff
 }
 
+var tLast = time.Now()
+
+func tick(what string) {
+	if os.Getenv("C24_TIMING") != "" {
+		fmt.Fprintln(os.Stderr, "phase", what, time.Since(tLast))
+	}
+	tLast = time.Now()
+}
+
 func main() {
 	a := common.ParseArgs()
 	run := common.NewRun(a, "C24", "HV.Compress.Wrapper")
@@ -382,6 +391,7 @@ func main() {
 			}
 		}
 	}
+	tick("encode+damage lists")
 	work := func(i int) {
 		j := jobs[i]
 		t0 := time.Now()
@@ -490,6 +500,7 @@ func main() {
 		}
 	}
 
+	tick("emit")
 	// arbitrary garbage (never a compressed form): errors must propagate, snappy model must agree
 	ng := 200
 	if thorough {
@@ -522,6 +533,7 @@ func main() {
 			run.Violate(idx, "no crash", "decompress_panic", algName[t]+" garbage: "+wd.panic+ld.panic)
 		}
 	}
+	tick("garbage")
 	// unknown compressor types
 	for _, t := range []int{0, 5, -1, 6, 255, 1 << 20} {
 		x := rng.Bytes(rng.Intn(20))
@@ -551,6 +563,7 @@ func main() {
 			}
 		}
 	}
+	tick("large")
 	run.Shard = (run.Meta.Evaluations + 7) / 8 // each coqc start costs seconds: few shards
 	run.Meta.Traces = run.Meta.Evaluations
 	run.Finish("check_all")
